@@ -36,7 +36,7 @@ type behav struct {
 	Err     int  // 0 none, 1 plain error, 2 context.Canceled
 	Panic   int  // 0 none, 1 string, 2 error, 3 nil
 	Self    int  // 0 none, 1 Ack inside, 2 Nack inside
-	Pub     int  // 0 accept, 1 error, 2 panic
+	Pub     int  // 0 accept, 1 error, 2 panic, 3 error wrapping context.Canceled, 4 error wrapping context.DeadlineExceeded
 	Pad     int
 	Ctx     int // message context: 0 none (background), 1 live cancelable, 2 cancelled before delivery, 3 cancelled by the handler
 }
@@ -92,7 +92,7 @@ func genCase(t *rapid.T) caseT {
 		if rapid.IntRange(0, 3).Draw(t, "selfSettle") == 0 {
 			b.Self = rapid.IntRange(1, 2).Draw(t, "selfKind")
 		}
-		b.Pub = rapid.SampledFrom([]int{0, 0, 0, 1, 2}).Draw(t, "pubOutcome")
+		b.Pub = rapid.SampledFrom([]int{0, 0, 0, 0, 1, 2, 3, 4}).Draw(t, "pubOutcome")
 		b.Ctx = rapid.SampledFrom([]int{0, 1, 1, 2, 3}).Draw(t, "msgCtx")
 		c.Msgs = append(c.Msgs, b)
 	}
@@ -306,6 +306,10 @@ func runCase(t *rapid.T, c caseT) {
 			return errPub
 		case 2:
 			panic("scripted publisher panic")
+		case 3: // a publisher bound to a context of its own: still a failed publish, whatever the error wraps
+			return fmt.Errorf("scripted publish error: %w", context.Canceled)
+		case 4:
+			return fmt.Errorf("scripted publish error: %w", context.DeadlineExceeded)
 		}
 		return nil
 	}
